@@ -311,3 +311,6 @@ func (st *Stream) InjectS2C(b []byte) {
 	st.s2c = append(st.s2c, b)
 	mc.RaceRelease(unsafe.Pointer(&st.s2cSync))
 }
+
+// Closed reports whether the client connection has been closed.
+func (c *ClientConn) Closed() bool { return c.closed }
